@@ -436,6 +436,7 @@ def build(spec, tables):
         body = spec["body"]
         bk = body[0]
         lean_body = None
+        xop = "data"
         if bk == "numbers":
             kwd = None
             if body[1]:
@@ -484,38 +485,84 @@ def build(spec, tables):
                 ev += [wl, gl]
                 ls.append((wl, gl))
             lean_body = lambda: ["mode", [[w.o, g.lean()] for w, g in ls]]  # noqa: E731
-        elif bk == "numbers_opt":  # SI/SP/SB/DS with an option letter: validated only
-            ev += [Word(body[1], True), Slot("req")]
-            eve, _ = ev_entries(body[2])
+        elif bk == "numbers_opt":  # SI/SP/SB/DS with an option letter
+            wl, gl = Word(body[1], True), Slot("req")
+            ev += [wl, gl]
+            eve, lne = ev_entries(body[2])
             ev += eve
-        elif bk == "tally":  # F cards: bins and groups; validated only
+            xop = "xcard"
+            lean_body = lambda: ["lettered", wl.o, gl.lean(), lne()]  # noqa: E731
+        elif bk == "tally":  # F cards: bins and groups, total T
+            parts = []  # ("n", Word, Slot) | ("g", open slot, [(Word, Slot)], after slot)
             for it in body[1]:
                 if it[0] == "n":
-                    ev += [Word(it[1]), Slot("req")]
+                    w_, s_ = Word(it[1]), Slot("req")
+                    ev += [w_, s_]
+                    parts.append(("n", w_, s_))
                 else:
-                    ev += [Word("("), Slot("opt")]
+                    so = Slot("opt")
+                    ev += [Word("("), so]
+                    inner = []
                     for j, x in enumerate(it[1]):
-                        ev += [Word(x), Slot("req" if j < len(it[1]) - 1 else "opt")]
-                    ev += [Word(")"), Slot("opt")]
+                        w_, s_ = Word(x), Slot("req" if j < len(it[1]) - 1 else "opt")
+                        ev += [w_, s_]
+                        inner.append((w_, s_))
+                    sa = Slot("opt")
+                    ev += [Word(")"), sa]
+                    parts.append(("g", so, inner, sa))
+            tot = None
             if body[2]:
                 ev[-1].kind = "req"
-                ev += [Word("t", True), Slot("req")]
+                wt, st = Word("t", True), Slot("req")
+                ev += [wt, st]
+                tot = (wt, st)
+
+            def lean_body():
+                items = []
+                for pt in parts:
+                    if pt[0] == "n":
+                        ent = [["real", [pt[1].o, int(pt[1].o) == 0]], pt[2].lean()]
+                        if items and items[-1][0] == "bins":
+                            items[-1][1].append(ent)
+                        else:
+                            items.append(["bins", [ent]])
+                    else:
+                        items.append(["group", pt[1].lean(), [[["real", [w_.o, int(w_.o) == 0]], s_.lean()] for w_, s_ in pt[2]], pt[3].lean()])
+                return ["tally", items, [tot[0].o, tot[1].lean()] if tot else None]
+
+            xop = "xcard"
         elif bk == "fs":
+            segs = []
             for x in body[1]:
-                ev += [Word(x), Slot("req")]
+                w_, s_ = Word(x), Slot("req")
+                ev += [w_, s_]
+                segs.append((w_, s_))
+            tot = None
             if body[2]:
-                ev += [Word("t", True), Slot("req")]
+                wt, st = Word("t", True), Slot("req")
+                ev += [wt, st]
+                tot = (wt, st)
+            xop = "xcard"
+            lean_body = lambda: ["segments", [[["real", [w_.o, int(w_.o) == 0]], s_.lean()] for w_, s_ in segs], [tot[0].o, tot[1].lean()] if tot else None]  # noqa: E731
         elif bk == "sdef":
+            sps = []
             for key, val in body[1]:
                 kwd, sep = Word(key, True), Sep()
                 ev += [kwd, sep]
                 if val[0] == "nums":
-                    eve, _ = ev_entries(val[1])
+                    eve, lne = ev_entries(val[1])
                     ev += eve
+                    sps.append(lambda kwd=kwd, sep=sep, lne=lne: [kwd.o, sep.lean(), ["nums", lne()]])
                 elif val[0] == "dist":
-                    ev += [Word("d" + val[1], True), Slot("req")]
+                    wd, sd = Word("d" + val[1], True), Slot("req")
+                    ev += [wd, sd]
+                    sps.append(lambda kwd=kwd, sep=sep, wd=wd, sd=sd: [kwd.o, sep.lean(), ["dist", wd.o[:1], wd.o[1:], sd.lean()]])
                 else:
-                    ev += [Word(val[1], True), Slot("req")]
+                    ww, sw = Word(val[1], True), Slot("req")
+                    ev += [ww, sw]
+                    sps.append(lambda kwd=kwd, sep=sep, ww=ww, sw=sw: [kwd.o, sep.lean(), ["particle", ww.o, sw.lean()]])
+            xop = "xcard"
+            lean_body = lambda: ["sdef", [f() for f in sps]]  # noqa: E731
         elif bk == "text":  # FC / SC: free text to the end of the line; one word for the layout
             ev += [Word(body[1]), Slot("req")]
         else:
@@ -538,7 +585,7 @@ def build(spec, tables):
                     "body": lean_body(),
                 }
 
-        return Built(ev, lean, "data")
+        return Built(ev, lean, xop)
     raise AssertionError(kind)
 
 
